@@ -22,7 +22,19 @@ Stats(seqs) == [nseq |-> Len(seqs),
                 overlap |-> Cardinality({j \in 1..Len(seqs) : HasMatch(seqs[j]) /\ seqs[j].off < seqs[j].ml})]
 NoStats == [nseq |-> 0, litext |-> 0, mlext |-> 0, overlap |-> 0]
 
+\* large inputs: element-wise with Lz4.Against (same verdicts as the full decode, linear time)
+VerdictBig(r) ==
+    LET p == Parse(r.c) IN
+    IF ~p.ok THEN [id |-> r.id, v |-> "invalid-block", why |-> p.why, st |-> NoStats]
+    ELSE IF Check(p.seqs) # "ok" THEN [id |-> r.id, v |-> "invalid-block", why |-> Check(p.seqs), st |-> Stats(p.seqs)]
+    ELSE LET a == Against(p.seqs, r.x) IN
+         IF a # "ok" THEN [id |-> r.id, v |-> "decodes-to-different-bytes", why |-> a, st |-> Stats(p.seqs)]
+         ELSE IF ~EndRules(p.seqs) THEN [id |-> r.id, v |-> "end-of-block-rule-broken", why |-> FirstBrokenEndRule(p.seqs), st |-> Stats(p.seqs)]
+         ELSE [id |-> r.id, v |-> "ok", why |-> IF p.nib # 0 THEN "stray-nibble" ELSE "", st |-> Stats(p.seqs)]
+
+BigLimit == 8192
 Verdict(r) ==
+    IF Len(r.x) > BigLimit THEN VerdictBig(r) ELSE
     LET p == Parse(r.c)
         d == Decode(r.c)
     IN IF ~d.ok THEN [id |-> r.id, v |-> "invalid-block", why |-> d.why, st |-> NoStats]
